@@ -133,7 +133,23 @@ def operator_module(interp):
 def std_modules(interp) -> dict:
     """stubs of the standard-library modules plain helper code uses, for evaluators that are not built from a module tree"""
     return {"functools": functools_module(interp), "itertools": _itertools_module(interp), "operator": operator_module(interp),
-            "collections": collections_module()}
+            "collections": collections_module(), "urllib": urllib_module()}
+
+
+def urllib_module():
+    import urllib.parse as _up
+
+    def pure(f):
+        def g(*a, **k):
+            if any(isinstance(x, (Record, ClassRef, ModuleRef)) for x in a):
+                raise AnalysisError("urllib.parse function applied to a model object")
+            try:
+                return f(*a, **k)
+            except (TypeError, ValueError) as e:
+                raise Raised(type(e).__name__, e.args)
+        return ("host", g)
+    return ModuleRef("urllib", attrs={"parse": ModuleRef("urllib.parse", attrs={
+        "unquote": pure(_up.unquote), "quote": pure(_up.quote), "unquote_plus": pure(_up.unquote_plus)})})
 
 
 def collections_module():
@@ -651,7 +667,7 @@ class Interp:
             return ("builtin", name)
         if name == "NotImplemented":
             return NotImplemented
-        if name in ("functools", "itertools", "operator", "collections"):
+        if name in ("functools", "itertools", "operator", "collections", "urllib"):
             # standard-library helpers are available to every evaluator (as if imported)
             self.globals[name] = std_modules(self)[name]
             return self.globals[name]
